@@ -85,6 +85,13 @@ def main(argv):
 
     mod = importlib.import_module("props." + prop.lower())
     obs = mod.obligations(tier, seed)
+    only = os.environ.get("VERIF_DEV_ONLY")
+    if only:
+        # development aid: a subset of the obligations (never set by a registered command; missing cover goals are then expected)
+        import re
+
+        obs = [ob for ob in obs if re.search(only, ob["name"])]
+        print("DEV-SUBSET %d obligations matching %r" % (len(obs), only))
     known = load_known(prop)
     known_tags = sorted({f["tag"] for f in known})
     for i, ob in enumerate(obs):
